@@ -121,7 +121,7 @@ WORDS = ["ab", "the", u"éa"]
 OPS = [" AND ", " OR ", " NOT ", " ANDNOT ", " ANDMAYBE ", " REQUIRE "]
 PUNCT = ["(", ")", '"', "'", ":", "^2", "~", "~2", "[", "]", "{", "}", " TO ",
          "*", "?", "+", "-", "<", ">="]
-PREFIXES = ["t:", "k:", "i:", "n:", "f:", "d:", "b:", "g:", "w:", "m:", "zz:"]
+PREFIXES = ["t:", "k:", "i:", "n:", "f:", "d:", "b:", "g:", "w:", "m:", "s:", "c:", "zz:"]
 VALUES = ["200101", "7"]
 MISC = [" ", 'r"']
 FULL = WORDS + OPS + PUNCT + PREFIXES + VALUES + MISC
@@ -134,7 +134,7 @@ def reduced(seed, n):
     each token class is used (every variant is a complete product space)."""
     def pick(lst, k=0):
         return lst[(seed + k) % len(lst)]
-    typed = ["d:", "n:", "b:", "g:", "m:", "t:", "f:", "k:", "w:", "i:", "zz:"]
+    typed = ["d:", "n:", "b:", "g:", "m:", "t:", "f:", "k:", "w:", "i:", "zz:", "s:", "c:"]
     order = ["ab", " ", "(", ")", '"', " NOT ", pick(typed), "[", "]", " TO ", "*", "^2",
              pick([" ANDNOT ", " ANDMAYBE ", " REQUIRE "]),
              pick([" AND ", " OR "]), pick(["~2", "~"]), pick(["<", ">="]),
@@ -164,8 +164,34 @@ def range_templates():
                             yield [x for x in (pre, op, a, sep, b, cl) if x]
 
 
+# words a user may type where a date is expected (DateParserPlugin): calendar
+# values in and out of range, month/day names, relative offsets, times, keywords
+DATE_TOKS = ["0000", "0", "30", "31", "32", "2001", "99999", "20010230", "200113", "2001-02-30",
+             "feb", "february", "sept", "friday", "mon", "30th", "0th",
+             "+9000y", "-9000y", "+1mo", "-2d", "+13h", "-0s", "next", "last", "ago",
+             "now", "today", "tomorrow", "midnight", "noon",
+             "13:99", "25:00", "12am", "0am", "13pm", "5:30pm", "3", "to"]
+
+
+def date_strings(tier):
+    """Token lists around every sequence of <= 2 (thorough 3) date words."""
+    maxlen = 2 if tier == "quick" else 3
+    for L in range(1, maxlen + 1):
+        alpha = DATE_TOKS if L < 3 else DATE_TOKS[::3]
+        for seq in itertools.product(alpha, repeat=L):
+            text = " ".join(seq)
+            yield ["d:", text]
+            yield ["d:'", text, "'"]
+            yield [text]
+            if L <= 2:
+                yield ["d:[", text, " to ", "]"]
+                yield ["d:[", " to ", text, "]"]
+                yield ["d:[", text, " to ", "feb 30", "]"]
+                yield ["d:{", "now", " to ", text, "}"]
+
+
 def typed_schema():
-    from whoosh import fields
+    from whoosh import fields, columns
     return fields.Schema(
         key=fields.ID(stored=True, unique=True),
         t=fields.TEXT(), k=fields.KEYWORD(scorable=True), i=fields.ID(),
@@ -173,7 +199,9 @@ def typed_schema():
         b=fields.BOOLEAN(), g=fields.NGRAM(minsize=2, maxsize=3),
         w=fields.NGRAMWORDS(minsize=2, maxsize=3),
         # fixed-point numbers: text is parsed through decimal.Decimal
-        m=fields.NUMERIC(int, decimal_places=2))
+        m=fields.NUMERIC(int, decimal_places=2),
+        # fields that exist in the schema but cannot be searched
+        s=fields.STORED(), c=fields.COLUMN(columns.VarBytesColumn()))
 
 
 def foreign_schema():
@@ -224,7 +252,7 @@ def make_parser(cfg, sc):
 def typed_docs():
     dt = datetime.datetime
     return [dict(key=u"0", t=u"ab cd the ab", k=u"ab cd", i=u"ab", n=7, f=7.5,
-                 d=dt(2001, 1, 1), b=True, g=u"abcd", w=u"abcd ab", m=u"7.25"),
+                 d=dt(2001, 1, 1), b=True, g=u"abcd", w=u"abcd ab", m=u"7.25", s=[1, u"ab"], c=b"ab"),
             dict(key=u"1", t=u"cd éa", k=u"éa", i=u"cd", n=-3, f=-0.5,
                  d=dt(2001, 1, 15, 12), b=False, g=u"cdab", w=u"cd"),
             dict(key=u"2", t=u"ab"),
@@ -405,6 +433,11 @@ def token_lists(t):
                     dup = True
                     break
             if not dup:
+                yield toks
+    elif kind == "dates":
+        _, _, tier, nsl, sl = t
+        for i, toks in enumerate(date_strings(tier)):
+            if i % nsl == sl:
                 yield toks
     else:
         raise ValueError(kind)
@@ -1361,7 +1394,7 @@ def task(t):
     acc = core.Acc()
     seed = t[0]
     part = t[1]
-    if part in ("prod", "ranges"):
+    if part in ("prod", "ranges", "dates"):
         task_a(t, acc, seed)
     elif part == "meaning":
         task_b(t, acc, seed)
@@ -1396,6 +1429,8 @@ def plan(tier, seed):
                             "alphabet_reduced_5": r5, "max_tokens_reduced_5": 5}
     nr = 8
     ranges = [(seed, "ranges", nr, sl, products) for sl in range(nr)]
+    ranges += [(seed, "dates", tier, 8, sl) for sl in range(8)]
+    info["totality"]["date_words"] = DATE_TOKS
     # ---- part B
     fam = {}
     for f, n in (("e2", 16 if tier == "quick" else 40),
